@@ -88,12 +88,12 @@ def interpreter(
         elif op == "s_mult":
             result = interpreter(args[0], context, dimensions)
             for arg in args[1:]:
-                result *= interpreter(arg, context, dimensions)
+                result = result * interpreter(arg, context, dimensions)
             return result
         elif op == "m_mult":
             result = interpreter(args[0], context, dimensions)
             for arg in args[1:]:
-                result @= interpreter(arg, context, dimensions)
+                result = result @ interpreter(arg, context, dimensions)
             return result
         elif op == "kron":
             result = interpreter(args[0], context, dimensions)
